@@ -72,9 +72,18 @@ theorem fields_expected :
 theorem only_parent_dropped : ∀ st ∈ Gen.polyStructs, ∀ f ∈ st.2,
     f.json = none → (st.1 = "Feature" ∧ f.go = "ParentSequence") := by decide
 
-/-- No field is encoded in a way the model does not cover (quoted scalars, custom codecs, embedded or
-unexported fields, a decoder that disagrees with the encoder), and none is `omitempty`. -/
+/-- No field is encoded in a way the model does not cover (quoted scalars, a field type with a custom codec,
+embedded or unexported fields, a decoder that disagrees with the encoder), and none is `omitempty`. -/
 theorem plain_fields : ∀ st ∈ Gen.polyStructs, ∀ f ∈ st.2, f.flags = [] ∧ f.omitempty = false := by decide
+
+/-- No type of the JSON form has a codec of its own: none of the structs reachable from `poly.Sequence` (the root
+and slice element types such as `Feature`, `Reference` included) nor any field, element or key type implements
+`json.Marshaler`, `json.Unmarshaler`, `encoding.TextMarshaler` or `encoding.TextUnmarshaler`, through a value or a
+pointer receiver — so `encoding/json` encodes every one of them by its struct table, which is what the model does. -/
+theorem no_custom_codecs : ∀ c ∈ Gen.polyCodecs, c.2 = [] := by decide
+
+/-- … and that list covers every struct of the table. -/
+theorem codecs_cover_structs : ∀ st ∈ Gen.polyStructs, ("poly." ++ st.1) ∈ Gen.polyCodecs.map (·.1) := by decide
 
 /-! ## reading back what was written -/
 
